@@ -31,6 +31,19 @@ POOL = {
 ALL_NAMES = [n for ns in POOL.values() for n in ns]
 
 
+def _mentions(e: Any, name: str) -> int:
+    """How many times the expression reads the variable *name*."""
+    from dataclasses import fields, is_dataclass
+
+    if isinstance(e, M.Var):
+        return (1 if e.root == name else 0) + sum(_mentions(x, name) for x in getattr(e, "segs", []) or [])
+    if is_dataclass(e) and not isinstance(e, type):
+        return sum(_mentions(getattr(e, f.name), name) for f in fields(e))
+    if isinstance(e, (list, tuple)):
+        return sum(_mentions(x, name) for x in e)
+    return 0
+
+
 def _lambda_params(e: Any) -> list[str]:
     out: list[str] = []
     fs = list(getattr(e, "filters", []) or []) + list(getattr(e, "tail", []) or [])
@@ -489,6 +502,12 @@ class Gen:
                     if t2 != ty:
                         fs, t2 = [], ty
                 e = M.Filt(left, fs)
+            if loop and _mentions(e, name) >= 2:
+                # `assign t = t | replace: ' ', t` inside nested loops squares the value on
+                # every iteration: no bounded meaning, minutes of CPU for every renderer
+                e = M.Filt(self.prim(ty, env, loop) if ty not in ("ints", "strs") else self.list_prim(ty, env, loop))
+                if _mentions(e, name) >= 2:
+                    e = M.Filt(self.lit(ty if ty not in ("ints", "strs") else "str"))
             env[name] = ty
             return M.Assign(name, e)
         if k == "capture":
